@@ -77,7 +77,27 @@ impl Scenario for Rules {
         let mut rng = Rng::new(seed).fork(&format!("rules{}", index));
         let random = rng.bytes(32);
         let peers = ["203.0.113.5", "10.1.2.3", "192.168.1.77", "2001:db8:1::5", "fd00::7", "::ffff:10.1.2.3", "::ffff:203.0.113.5"];
-        let peer = (*rng.pick(&peers)).to_string();
+        // half of the runs: a peer drawn from the shapes an accept() can report - any IPv4, any
+        // IPv6, IPv4-mapped (an IPv4 peer of a dual-stack listener), and the IPv6 addresses that
+        // merely look like IPv4 (::a.b.c.d, ::1, ::, 64:ff9b::a.b.c.d, 2002:a.b.c.d::), which are
+        // IPv6 peers and must be judged as such
+        let peer = if rng.chance(1, 2) {
+            (*rng.pick(&peers)).to_string()
+        } else {
+            let v4 = [*rng.pick(&[10u8, 127, 172, 192, 203, 8, 100, 0]), rng.below(256) as u8, rng.below(256) as u8, 1 + rng.below(254) as u8];
+            let v4s = format!("{}.{}.{}.{}", v4[0], v4[1], v4[2], v4[3]);
+            match rng.below(9) {
+                0 => v4s,
+                1 => format!("::ffff:{}", v4s),
+                2 => format!("::{}", v4s),
+                3 => "::1".to_string(),
+                4 => format!("64:ff9b::{}", v4s),
+                5 => format!("2002:{:x}:{:x}::1", u16::from_be_bytes([v4[0], v4[1]]), u16::from_be_bytes([v4[2], v4[3]])),
+                6 => format!("::{:x}", 2 + rng.below(0xfffe)),
+                7 => format!("fe80::{:x}", 1 + rng.below(0xffff)),
+                _ => format!("2a02:{:x}:{:x}::{:x}", rng.below(0x10000), rng.below(0x10000), 1 + rng.below(0xffff)),
+            }
+        };
         let peer_ip: IpAddr = peer.parse().unwrap();
         let canon = match peer_ip {
             IpAddr::V6(v) => v.to_ipv4_mapped().map(IpAddr::V4).unwrap_or(peer_ip),
@@ -98,7 +118,15 @@ impl Scenario for Rules {
                     IpAddr::V4(a) => format!("{}/32", a),
                     IpAddr::V6(a) => format!("{}/128", a),
                 }),
-                5 => Some((*rng.pick(&["172.16.0.0/12", "8.8.8.0/24", "2001:4860::/32", "0.0.0.0/0", "::/0"])).to_string()),
+                5 => Some(match (rng.below(3), peer_ip) {
+                    // the IPv4 networks around the low 32 bits of an IPv6 peer: they do not contain it
+                    (0, IpAddr::V6(a)) if a.to_ipv4_mapped().is_none() => {
+                        let o = a.octets();
+                        if rng.chance(1, 2) { format!("{}.{}.{}.{}/32", o[12], o[13], o[14], o[15]) } else { format!("{}.0.0.0/8", o[12]) }
+                    }
+                    (1, _) => (*rng.pick(&["::/96", "::/127", "::1/128", "::/8", "0.0.0.0/8"])).to_string(),
+                    _ => (*rng.pick(&["172.16.0.0/12", "8.8.8.0/24", "2001:4860::/32", "0.0.0.0/0", "::/0"])).to_string(),
+                }),
                 6 => Some((*rng.pick(&["10.0.0.0/40", "not-a-cidr", "10.1.2.3", "", "300.1.1.1/8"])).to_string()),
                 _ => Some(match canon {
                     // one bit off: the neighbouring /24 or /64
